@@ -69,6 +69,7 @@ class ESet:
     def __init__(self, elems, ops, ext=False, all_except=False, paren=False):
         self.elems, self.ops, self.ext, self.all_except = elems, ops, ext, all_except
         self.paren = paren      # every element is written as a parenthesised element set: `((0..5) | (7..9), ...)`
+        self.each_size = False  # (sized types) every element is its own SIZE constraint: `(SIZE (1..10) EXCEPT SIZE (5))`
 
     def phs(self):
         return [p for e in self.elems for p in e.phs()]
@@ -96,7 +97,7 @@ class ESet:
         return [c for e in self.elems for c in e.wf(val)]
 
     def role(self):
-        er = (lambda e: '(' + e.role() + ')') if self.paren else (lambda e: e.role())
+        er = (lambda e: '(' + e.role() + ')') if self.paren else (lambda e: 'SIZE ' + e.role()) if self.each_size else (lambda e: e.role())
         s = er(self.elems[0])
         for op, e in zip(self.ops, self.elems[1:]):
             s += ' ' + op + ' ' + er(e)
@@ -126,7 +127,14 @@ class Shape:
 
     def constraint_text(self, val):
         if self.size_of:
-            return ' '.join('(SIZE (' + es.text(val) + '))' for es in self.serial)
+            def one(es):
+                if not es.each_size:
+                    return '(SIZE (' + es.text(val) + '))'
+                t = 'SIZE (' + es.elems[0].text(val) + ')'
+                for op, e in zip(es.ops, es.elems[1:]):
+                    t += f" {op} SIZE ({e.text(val)})"
+                return '(' + t + (', ...' if es.ext else '') + ')'
+            return ' '.join(one(es) for es in self.serial)
         return ' '.join('(' + es.text(val) + ')' for es in self.serial)
 
     def module_text(self, val):
@@ -291,6 +299,12 @@ def shapes(tier, contexts=('assign', 'component'), size_types=()):
         for ctx in ('assign', 'component'):
             for s in sz:
                 out.append(Shape([s()], ctx, size_of=st))
+            # set operations BETWEEN size constraints
+            for op in ('|', '^', 'EXCEPT'):
+                for k1, k2 in ((('range', 'lo', 'hi'), ('single',)), (('single',), ('range', 'lo', 'hi'))):
+                    es = ESet([mk_elem(k1), mk_elem(k2)], [op], False)
+                    es.each_size = True
+                    out.append(Shape([es], ctx, size_of=st))
     return out
 
 
